@@ -199,6 +199,11 @@ func genC08(seed int64, tier string) *Scenario {
 			if !open[n] {
 				continue
 			}
+			if r.Intn(4) == 0 {
+				// select all + delete (a range edit that leaves an empty buffer), then look
+				sc.Ops = append(sc.Ops, Op{Kind: "clear", Path: n}, Op{Kind: "deliver"}, Op{Kind: "check"})
+				continue
+			}
 			sc.Ops = append(sc.Ops, Op{Kind: "change", Path: n, Edits: []Edit{{Start: Pos{0, 0}, End: Pos{0, 0}, Text: []string{"local z = \n", "print(1)\n", "(", "-- c\n"}[r.Intn(4)]}}})
 		case k < 16:
 			if !open[n] {
